@@ -287,7 +287,7 @@ PROPS["C12"] = dict(
 PROPS["C13"] = dict(
     pkg="c13",
     subs=[
-        dict(name="schema", test="TestSchema", quick=6000, thorough=120000, shards=16),
+        dict(name="schema", test="TestSchema", quick=1500, thorough=6000, shards=16),
     ],
     technique="rapid-generated composed schemas and instances; differential against an own JSON Schema validator for the keyword subset, itself cross-checked per case by python jsonschema (Draft202012Validator) when available",
     level_text="exploration: schemas composed to depth 2-3 from type (single/list), enum and const (scalars and composite values: objects inside arrays, nesting, empties), numeric bounds (small, and at the edges of int64/2^53/1e19) and string bounds, multipleOf, pattern, properties, required, additionalProperties, patternProperties, min/maxProperties, items, min/maxItems, uniqueItems, contains, allOf/anyOf/oneOf/not (including 3-4 type-only branches), $defs/$ref; 8 instances per schema, a third of them a const/enum value or bound of the schema or a near miss of it (one member added, removed or changed, an element appended, a number moved by one); a verdict counts only when the Go validator and python jsonschema agree.",
